@@ -403,6 +403,24 @@ func checkC11(c *Ctx) {
 	r.Rule("C11.6", "functions reachable from external entry points release every lock they take on all paths", 10)
 	checkLockLeaks(r, "C11.6", order)
 
+	// ---- C11.7 "never hangs", receive loops: the loop that reads datagrams for the DNS registrar waits on nothing but
+	// its socket - a channel it can park on (an in-flight limit, a hand-off) turns a run of ignorable datagrams into a
+	// registrar that no longer reads
+	r.Rule("C11.7", "the DNS registrar's receive loop never parks on a channel, select or wait group", 1)
+	if f := c.fn("C11.7", "pkg/registrars/dns-registrar/responder", "Responder", "RecvAndRespond"); f != nil {
+		var ops []string
+		var pos token.Pos = f.Pos()
+		eachInstrDeep(f, 2, func(in ssa.Instruction, d deepCtx) {
+			if what := parksOn(in); what != "" {
+				ops = append(ops, fnName(d.f)+": "+what)
+				pos = in.Pos()
+			}
+		})
+		sort.Strings(ops)
+		r.Check(len(ops) == 0, "C11.7", "RecvAndRespond: the receive loop waits only on the socket", pos, fnName(f), "no send / receive / blocking select / Wait in the loop function or the helpers it calls",
+			"the receive loop can block on "+firstN(strings.Join(ops, "; "), 120)+": input that makes the awaited event never happen (e.g. a slot that is only released on the answered path) stops the registrar from reading any further datagram")
+	}
+
 	// ---- C11.5 constant-bound slicing / indexing and allocation sizes on the same reachable set
 	r.Rule("C11.5", "constant-bound slices/indexes of dynamically sized values are dominated by a length test; allocation sizes come from in-memory lengths or are bounded", 10)
 	for _, f := range order {
